@@ -511,7 +511,7 @@ def describe(case, obs):
 CHECK = Check(
     id="C19",
     title="CLI and Python entry points agree; list-in-file options equal repeated options",
-    theorems=["C19.samples_file_eq_repeated", "C19.ids_file_eq_repeated", "C19.both_is_usage_error", "C19.empty_is_none", "C19.unknown_ids_dropped", "C19.file_holds_names", "C19.file_holds_names_other_line_ends", "C19.splitlines_cut_names_before_fix", "C19.samples_file_eq_repeated_end_to_end", "C19.every_spelling_parses_to_its_meaning", "C19.spellings_are_interchangeable"],
+    theorems=["C19.samples_file_eq_repeated", "C19.ids_file_eq_repeated", "C19.both_is_usage_error", "C19.empty_is_none", "C19.unknown_ids_dropped", "C19.file_holds_names", "C19.file_holds_names_other_line_ends", "C19.final_newline_is_not_information", "C19.splitlines_cut_names_before_fix", "C19.samples_file_eq_repeated_end_to_end", "C19.every_spelling_parses_to_its_meaning", "C19.spellings_are_interchangeable"],
     sections=[
         Section(
             name="cli_vs_api",
@@ -543,7 +543,7 @@ CHECK = Check(
         ),
         Section(
             name="list_files",
-            theorems=["C19.file_holds_names", "C19.file_holds_names_other_line_ends", "C19.splitlines_cut_names_before_fix", "C19.ids_file_eq_repeated"],
+            theorems=["C19.file_holds_names", "C19.file_holds_names_other_line_ends", "C19.final_newline_is_not_information", "C19.splitlines_cut_names_before_fix", "C19.ids_file_eq_repeated"],
             gen=c19b.gen_lines,
             impl=c19b.impl_lines,
             model_req=c19b.model_req_lines,
